@@ -185,18 +185,20 @@ claim("C03",
 
 # Addenda: rules added or cross-registered after the independently seeded changes (DESIGN §8).
 _EXTRA = {
- "C01": " Added after the seeded changes: (R-TXN-9) every EncodeView in Commit is preceded by Truncate(0)+Seek(0) on the same file; (R-TXN-10) the auto-committing entry point is not reachable from ExecuteStatement; (R-ORD-1) the per-table counts that gate 'uncommitted' marking are filled by the same loop as their tables.",
- "C02": " Added after the seeded changes: (R-FMT-7) a grow-and-replace of a loaded record list keeps every element; (R-TXN-9) the file is rewound before each encode.",
+ "C01": " Added after the seeded changes: (R-TXN-9) every EncodeView in Commit is preceded by Truncate(0)+Seek(0) on the same file; (R-TXN-10) the auto-committing entry point is not reachable from ExecuteStatement; (R-ORD-1) the per-table counts that gate 'uncommitted' marking are filled by the same loop as their tables. (R-SIG-1) signals stay routed to the cancel function until the deferred rollback and release have run.",
+ "C02": " Added after the seeded changes: (R-FMT-7) a grow-and-replace of a loaded record list keeps every element; (R-TXN-9) the file is rewound before each encode. (R-FMT-8) a loader records the detected line break only when one was detected (sibling agreement).",
  "C03": " Added after the seeded changes: (R-REL-6) every success return of OuterJoin lies behind the FULL test; (R-ISO-2) inline tables / CTEs are handed out as copies.",
- "C04": " Also (R-PAR-1): the key-generation workers share no buffer.",
+ "C04": " Also (R-PAR-1): the key-generation workers share no buffer. Added after the seeded changes: (R-KEY-6) the strict / loose key choice is made in one place under a test of StrictEqual; (R-SRT-4) a cached sort value is filed under the column it was computed from.",
  "C05": " Also (R-ISO-4): no store into a cell shared with other views (UPDATE builds new cells); (R-CNT-2) the per-table counts of multi-table UPDATE / DELETE count distinct records (set size, or a counter guarded by a first-seen test).",
  "C09": " Also (R-CACHE-1): the first update access to a table loaded by a plain SELECT re-reads it under the exclusive lock.",
  "C10": " Added after the seeded changes: (R-SWAP-4) the original descriptor Handler.fp is never written or truncated; (R-TXN-9) rewind before encode.",
+ "C07": " Also (R-SRT-4): cached sort values are filed under the row and column they were computed from.",
+ "C11": " Added after the seeded changes: (R-SIG-1) signal.Stop is deferred so that it runs after the deferred rollback / forced release; a second signal during clean-up cannot kill the process.",
  "C12": " Added after the seeded changes: (R-PAR-7) no aggregate / analytic implementation starts goroutines (sequential reductions, no float reassociation).",
  "C13": " Added later: (R-PAR-4) scope constructors called in regions give each goroutine fresh lock-free helpers (field-index caches; genuine defect repaired); (R-PAR-6) the plain-map fields shared by all scopes are accessed only under viewLoadingMutex.",
  "C15": " Added after the seeded changes: (R-SCP-7) a '… is redeclared' error is guarded only by tests on the current block (genuine defect in DeclareView repaired).",
  "C16": " Added after the seeded changes: (R-CUR-6) every no-row exit of Fetch parks the pointer on −1 or the record count.",
- "C17": " Also (R-PAR-1): the partition workers of Analyze share no scratch buffer.",
+ "C17": " Also (R-PAR-1): the partition workers of Analyze share no scratch buffer. (R-SRT-4) cached sort values are filed under their own column.",
  "C18": " Added after the seeded changes: (R-SCAN-1) every read of Scanner.src is bounds-guarded; (R-ESC-3) no printer of a syntax-tree node uses a child's raw Identifier.Literal.",
  "C19": " Added later: (R-ERR-8) no method call on a possibly-nil interface in a type-switch default (genuine defect repaired); (R-SCAN-1) scanner reads are bounds-guarded; (R-FMT-7) grow-and-replace keeps every element.",
  "C20": " Added after the seeded changes: (R-TXN-10) statements that run statements do not re-enter the auto-committing entry point.",
